@@ -58,9 +58,21 @@ pub fn c11(s: &SynthStream, t: &mut Tally, idx: u64) {
     let mut v: Vec<(String, String)> = Vec::new();
     let mut max_buffered = 0i64;
 
+    // every 3rd case hands the rest of the stream to a clone of the writer taken mid-run (the
+    // original is dropped): a clone is the same writer in the same state
+    let clone_at = (idx % 3 == 2 && n > 2).then(|| 1 + (idx as usize / 3) % (n - 1));
     for i in 0..n {
+        if clone_at == Some(i) {
+            let copy = norm.clone();
+            drop(std::mem::replace(&mut norm, copy));
+            t.count("c11.streams_continued_on_a_clone", 1);
+        }
         sh.call.set(i);
-        block_on(norm.handle_event(s.items[i].clone(), &cli::Empty));
+        let fed = std::panic::catch_unwind(std::panic::AssertUnwindSafe(|| block_on(norm.handle_event(s.items[i].clone(), &cli::Empty))));
+        if fed.is_err() {
+            viol(t, "C11", "normalize:panicked", format!("Normalize panicked on input #{i} {} (cloned before input {clone_at:?})", input[i].short()), idx, &input, json!({"sequential": s.sequential}));
+            return;
+        }
         // input i received
         let m = &s.meta[i];
         if m.kind == Kind::ParseErr {
@@ -530,9 +542,19 @@ fn c12_inner(items: &[Item], t: &mut Tally, idx: u64, label: &str, primary: bool
     let recs = fps(items);
     let (exp, scs) = fold(&recs);
 
-    let run = |with_repeat: bool| -> (Counts, [usize; 4], Shared) {
+    let run = |mode: u8| -> (Counts, [usize; 4], Shared) {
         let (rec, sh) = RecW::new();
-        let (got, retried_sc) = if with_repeat {
+        let (got, retried_sc) = if mode == 2 {
+            // a custom filter replaying everything, run-Finished itself included
+            let mut w = writer::Summarize::new(rec).repeat_if(|_: &Item| true);
+            block_on(async {
+                for (i, it) in items.iter().enumerate() {
+                    sh.call.set(i);
+                    w.handle_event(it.clone(), &cli::Empty).await;
+                }
+            });
+            (getters(&*w), w.scenarios_stats().retried)
+        } else if mode == 1 {
             let mut w = writer::Summarize::new(rec).repeat_failed::<TW>();
             block_on(async {
                 for (i, it) in items.iter().enumerate() {
@@ -574,7 +596,7 @@ fn c12_inner(items: &[Item], t: &mut Tally, idx: u64, label: &str, primary: bool
         )
     }
 
-    let (mut got, extra, sh) = run(false);
+    let (mut got, extra, sh) = run(0);
     let mut v: Vec<(String, String)> = Vec::new();
     // summary text: exactly once, first thing after the inner writer got run-Finished
     let log = sh.log.borrow().clone();
@@ -647,7 +669,18 @@ fn c12_inner(items: &[Item], t: &mut Tally, idx: u64, label: &str, primary: bool
         v.push((if f1 { "scenarios-retried:hook-failure-around-retry" } else { "scenarios-retried" }.into(), format!("scenarios.retried = {}, only {retried_bound} scenarios have a retried failure", extra[3])));
     }
     // with a Repeat wrapper replaying events after run-Finished nothing changes
-    let (got2, extra2, sh2) = run(true);
+    let (got3, extra3, sh3) = run(2);
+    let mut g3 = got3.clone();
+    g3.features = got.features;
+    g3.rules = got.rules;
+    if g3 != got || extra3 != extra {
+        v.push(("replay-changes-counters".into(), format!("under repeat_if(everything) the counters are {got3:?}, without {got:?}")));
+    }
+    let w3 = sh3.log.borrow().iter().filter(|g| matches!(g, Got::Write { .. })).count();
+    if has_finished && w3 != 1 {
+        v.push(("summary-write-under-repeat".into(), format!("summary written {w3} times under repeat_if(everything)")));
+    }
+    let (got2, extra2, sh2) = run(1);
     let mut g2 = got2.clone();
     g2.features = got.features;
     g2.rules = got.rules;
@@ -698,6 +731,23 @@ fn tags_of(item: &Item) -> Option<[Vec<String>; 3]> {
         Cucumber::Feature(f, Feature::Rule(r, Rule::Scenario(s, _))) => Some([f.tags.clone(), r.tags.clone(), s.tags.clone()]),
         _ => None,
     }
+}
+
+/// Like `feed_rec`, but from input `at` on the stream goes to a clone of the writer (the original is
+/// dropped): a clone taken mid-run is the same writer in the same state.
+fn feed_rec_cloning<Wr: Writer<TW> + Clone>(w: &mut Wr, items: &[Item], cli: &Wr::Cli, shs: &[&Shared], at: Option<usize>) {
+    block_on(async {
+        for (i, it) in items.iter().enumerate() {
+            if at == Some(i) {
+                let copy = w.clone();
+                drop(std::mem::replace(w, copy));
+            }
+            for sh in shs {
+                sh.call.set(i);
+            }
+            w.handle_event(it.clone(), cli).await;
+        }
+    });
 }
 
 fn feed_rec<Wr: Writer<TW>>(w: &mut Wr, items: &[Item], cli: &Wr::Cli, shs: &[&Shared]) {
@@ -771,33 +821,35 @@ pub fn c13(items: &[Item], t: &mut Tally, idx: u64, rng: &mut Rng) {
 
     // ---- Repeat (skipped / failed / custom) ----
     let fin = input.iter().position(|r| r.ev == Ev::Finished);
+    // every other case continues on a clone taken somewhere in the middle
+    let clone_at = (idx % 2 == 1 && items.len() > 2).then(|| 1 + rng.below(items.len() - 1));
     for mode in 0..5 {
         let (rec, sh) = RecW::new();
         let out: Vec<Rec> = match mode {
             0 => {
                 let mut w = rec.repeat_skipped::<TW>();
-                feed_rec(&mut w, items, &cli::Empty, &[&sh]);
+                feed_rec_cloning(&mut w, items, &cli::Empty, &[&sh], clone_at);
                 sh.events().into_iter().map(|e| e.1).collect()
             }
             1 => {
                 let mut w = rec.repeat_failed::<TW>();
-                feed_rec(&mut w, items, &cli::Empty, &[&sh]);
+                feed_rec_cloning(&mut w, items, &cli::Empty, &[&sh], clone_at);
                 sh.events().into_iter().map(|e| e.1).collect()
             }
             2 => {
                 let mut w = rec.repeat_if(|ev: &Item| matches!(ev, Ok(e) if matches!(e.value, cucumber::event::Cucumber::Feature(..)) && token_of(ev).is_some_and(|t| t % 3 == 0)));
-                feed_rec(&mut w, items, &cli::Empty, &[&sh]);
+                feed_rec_cloning(&mut w, items, &cli::Empty, &[&sh], clone_at);
                 sh.events().into_iter().map(|e| e.1).collect()
             }
             // custom filters that select run-level events too, run-Finished itself included
             3 => {
                 let mut w = rec.repeat_if(|ev: &Item| matches!(ev, Ok(e) if matches!(e.value, cucumber::event::Cucumber::Finished)));
-                feed_rec(&mut w, items, &cli::Empty, &[&sh]);
+                feed_rec_cloning(&mut w, items, &cli::Empty, &[&sh], clone_at);
                 sh.events().into_iter().map(|e| e.1).collect()
             }
             _ => {
                 let mut w = rec.repeat_if(|_: &Item| true);
-                feed_rec(&mut w, items, &cli::Empty, &[&sh]);
+                feed_rec_cloning(&mut w, items, &cli::Empty, &[&sh], clone_at);
                 sh.events().into_iter().map(|e| e.1).collect()
             }
         };
